@@ -610,6 +610,16 @@ impl<T: Tagged> ThreadCtx<T> {
                 self.r = None;
                 "unit".into()
             }
+            "cloner" => {
+                // the receiver handle is replaced by a clone made through the async flavour
+                if let Some(r) = self.r.take() {
+                    let a = r.to_async();
+                    let c = a.clone_sync();
+                    drop(a);
+                    self.r = Some(Box::new(c));
+                }
+                "unit".into()
+            }
             "clones" => {
                 // clone through the async flavour and drop the original: conversions in the concurrent setting
                 if let Some(s) = self.s.take() {
@@ -787,7 +797,10 @@ fn run_one<T: Tagged>(pid: &str, cap: &str, threads: &[(usize, Vec<String>)], sp
             }
             for op in ops.iter() {
                 note(tid, &format!("OPB {}", op));
-                let r = ctx.exec(op);
+                let r = match std::panic::catch_unwind(std::panic::AssertUnwindSafe(|| ctx.exec(op))) {
+                    Ok(r) => r,
+                    Err(_) => "panic".to_string(),
+                };
                 note(tid, &format!("OPE {}", r));
                 ctx.results.push(r);
             }
@@ -830,7 +843,7 @@ fn run_one<T: Tagged>(pid: &str, cap: &str, threads: &[(usize, Vec<String>)], sp
         hand_over(s, 0);
         // wait for the end of the execution: everybody done, or stuck
         while !g.as_ref().unwrap().stuck && !g.as_ref().unwrap().state.iter().all(|x| *x == TS::Done) {
-            let (g2, to) = CV.wait_timeout(g, Duration::from_secs(20)).unwrap();
+            let (g2, to) = CV.wait_timeout(g, Duration::from_secs(6)).unwrap();
             g = g2;
             if to.timed_out() {
                 let s = g.as_mut().unwrap();
